@@ -163,10 +163,28 @@ func c11Multi(c *Ctx, cond string, tags []string, cands []string, rg *mon.Rng, l
 			local["left-as-is"]++
 			return
 		}
-		for i := 0; i < 400; i++ {
+		// value pool: every literal the rewrite put into the condition, the short
+		// strings over the alphabet, then random longer ones; two tags, so all
+		// pairs from the pool are tried (sampled when there are too many)
+		lits, _ := collectLits(sel.Condition)
+		pool := append([]string{"", "a", "b", "c", "ab", "ba", "aa", "bb", "bc", "ac", "abc", "z", "A", "\n", "a\n"}, lits...)
+		var pairs [][2]string
+		for _, x := range pool {
+			for _, y := range pool {
+				pairs = append(pairs, [2]string{x, y})
+			}
+		}
+		if len(pairs) > 1200 {
+			rg.Shuffle(len(pairs), func(i, j int) { pairs[i], pairs[j] = pairs[j], pairs[i] })
+			pairs = pairs[:1200]
+		}
+		for i := 0; i < 200; i++ {
+			pairs = append(pairs, [2]string{cands[rg.Intn(len(cands))], cands[rg.Intn(len(cands))]})
+		}
+		for _, pr := range pairs {
 			m := map[string]interface{}{}
-			for _, t := range tags {
-				m[t] = cands[rg.Intn(len(cands))]
+			for ti, t := range tags {
+				m[t] = pr[ti%2]
 			}
 			a, b := influxql.EvalBool(orig, m), influxql.EvalBool(sel.Condition, m)
 			if a != b {
@@ -242,7 +260,7 @@ func init() { Registry["C11"] = checkC11 }
 
 func checkC11(c *Ctx) (string, bool, []string) {
 	r := c.R
-	rule := "regex sources = prefix decoration x body x suffix decoration (12 x N x 6, both =~ and !~), bodies enumerated from 49 atoms (literals, classes, groups, alternation with empty branch, ? * + {n} {n,m} {n,}, scoped flags, inner anchors) combined up to 3 deep; alternations and class products of 99/100/101 members; random conditions of 1-3 predicates joined by AND/OR with parentheses. Each rewritten condition is compared with the original on every string of length <=4 (<=5 on a sixteenth of them in thorough) over {a,b,c,z,A,\\n,0,1} plus every substituted literal. Non-trivial = the rewrite changed the condition; distinct by (operator, regex)."
+	rule := "regex sources = prefix decoration x body x suffix decoration (12 x N x 6, both =~ and !~), bodies enumerated from 49 atoms (literals, classes, groups, alternation with empty branch, ? * + {n} {n,m} {n,}, scoped flags, inner anchors) combined up to 3 deep; alternations and class products of 99/100/101 members; random conditions of 2-7 predicates on two tags joined by AND/OR with parentheses (half of the regex predicates fully anchored finite languages of 1-4 strings, both polarities, so several rewrites meet in one condition). Each rewritten condition is compared with the original on every string of length <=4 (<=5 on a sixteenth of them in thorough) over {a,b,c,z,A,\\n,0,1} plus every substituted literal. Non-trivial = the rewrite changed the condition; distinct by (operator, regex)."
 	assume := []string{"Go's regexp matcher through EvalBool is the meaning of the original condition", "language equality is decided up to the stated string length; substituted literals are checked individually whatever their length"}
 	cands := c11Candidates(4)
 	cands5 := c11Candidates(c.N(4, 5))
@@ -313,15 +331,20 @@ func checkC11(c *Ctx) (string, bool, []string) {
 		local := map[string]int64{}
 		pred := func() string {
 			tag := rg.Pick("h", "g")
-			switch rg.Intn(5) {
+			switch rg.Intn(7) {
 			case 0:
 				return tag + " = '" + rg.Pick("a", "ab", "b") + "'"
 			case 1:
 				return tag + " != '" + rg.Pick("a", "ab", "") + "'"
+			case 2, 3, 4:
+				// fully anchored finite languages of 1-4 strings: several rewritten
+				// predicates of both polarities meet in one condition
+				local["multi.rewritable-shaped"]++
+				return tag + " " + rg.Pick("=~", "!~") + " " + regexLit("^"+rg.Pick("a", "b", "(a|b)", "[ab]c?", "(ab|b)", "a?b", "(a|)b", "(?:a|b){2}", "a{2}", "(a|b|ab)", "[a-c]", "")+"$")
 			}
 			return tag + " " + rg.Pick("=~", "!~") + " " + regexLit(c11Prefixes[rg.Intn(len(c11Prefixes))]+bodies[rg.Intn(len(bodies))]+c11Suffixes[rg.Intn(len(c11Suffixes))])
 		}
-		n := rg.Range(2, 3)
+		n := rg.Range(2, 4)
 		cond := pred()
 		for k := 1; k < n; k++ {
 			nx := pred()
